@@ -87,6 +87,19 @@ def run_table_traces(out, prop, tier):
         "import must leave the array exactly as the previous call left it, an accepted one makes it the table's result")
 
 
+def run_special(out, prop):
+    # (typed dimensions only: untyped integer items come back from text as strings and nothing says they are integers)
+    cases = [(["a"], None), (["a", "b"], None), (["b", "a"], None), (["a", "d", "b"], None),
+             (["a"], 0), (["a", "b"], 0), (["a", "b"], 3), (["b", "a"], 0), (["a", "d", "b"], 0), (["a", "d", "b"], 4)]
+    bad = core.replay_parallel(replay_tables.run_special_layouts, cases)
+    out.replayed += len(cases)
+    out.extra["special_layout_cases"] = len(cases)
+    out.judge(core.for_property([({"op": "special", "ds": c[0], "wide": "", "styleid": 0, "faults": [], "case": str(c)}, p) for c, p in bad], prop),
+              "tables_special", lambda v, p: {"engine": "tables_special", "case": v["case"]})
+    out.assumptions.append("special layouts outside the ten styles: header-less text files (valid; with a repeated line, in particular the first one) "
+                           "and a table without any row under the default flags")
+
+
 def check_C11(tier, seed):
     out = Outcome("C11", tier, seed)
     if tier == "quick":
@@ -96,6 +109,7 @@ def check_C11(tier, seed):
         models = [tab_model("import", 4, 0, ALL_STYLES, 4), tab_model("export", 4, 0, ALL_STYLES, 4), tab_model("import", 2, 1, ALL_STYLES)]
     run_tables(out, "C11", models)
     run_table_traces(out, "C11", tier)
+    run_special(out, "C11")
     # the round-trip clause on large instances (hundreds of items per dimension)
     cases = [(201, 3, 0), (130, 2, 1), (40, 140, 0), (33000, 2, 0), (160, 6, 0), (128, 1, 1)] if tier == "quick" else \
         [(201, 3, 0), (130, 2, 1), (40, 140, 0), (33000, 2, 0), (160, 6, 0), (128, 1, 1), (300, 5, 1), (2, 400, 0), (260, 130, 1), (2, 70000, 1), (256, 4, 0)]
@@ -119,6 +133,7 @@ def check_C12(tier, seed):
                   tab_model("import", 1, 3, {1, 5, 8}, 2)]
     run_tables(out, "C12", models)
     run_table_traces(out, "C12", tier)
+    run_special(out, "C12")
     # the fault clauses on large instances (dimensions with hundreds / tens of thousands of items)
     cases = [(151, 3, 0), (40, 140, 1), (33000, 2, 0)] if tier == "quick" else [(151, 3, 0), (40, 140, 1), (33000, 2, 0), (300, 130, 1), (2, 70000, 1)]
     bad = core.replay_parallel(replay_tables.run_large_faulty, cases)
